@@ -1,6 +1,6 @@
 \* C03 / Pipeline, CURRENT code: per-request rule swap (RuleModel = "atomic").
 \* Same constants as MC_Pipeline.cfg but the small extension-list choice.
-\* Measured: 50 956 distinct / 91 444 generated states, depth 19, 4-9 s; I1-I5 HOLD (the window needs the non-atomic read-modify-write).
+\* Measured: 50 956 distinct / 91 444 generated states, depth 19, 4-9 s; I0-I7 HOLD (the window needs the non-atomic read-modify-write).
 SPECIFICATION MCSpec
 CONSTANTS
   Reqs = {1, 2}
